@@ -14,6 +14,7 @@ must re-parse to a configuration equal to cfg0 value for value and type for type
 from __future__ import annotations
 
 import contextlib
+import contextvars
 import copy
 import dataclasses
 import enum
@@ -395,12 +396,12 @@ def run_case(case, variants):
 
     res = CaseResult()
     try:
-        p = build_parser(case["spec"])
+        p = contextvars.copy_context().run(build_parser, case["spec"])
     except Rejected as ex:
         res.reject_reason = "default rejected: " + str(ex)
         return res
     try:
-        cfg0 = p.parse_object(nest(copy.deepcopy(case["obj"])))
+        cfg0 = contextvars.copy_context().run(p.parse_object, nest(copy.deepcopy(case["obj"])))
     except ArgumentError as ex:
         res.reject_reason = str(ex)[:200]
         return res
@@ -413,7 +414,10 @@ def run_case(case, variants):
             try:
                 if _is_comments(variant) and not variant.get("force") and not comments_neutral(cfg0):
                     raise Skip("configuration outside the sub-domain of the yaml_comments variant")
-                f = run_variant(p, cfg0, ref, variant, case, tmpdir)
+                # each variant runs in its own copy of the contextvars context: a dump that raises half-way can leave
+                # jsonargparse context variables set (contextmanagers without `finally`; history dependence is C09's
+                # subject) and must not influence the next variant / case
+                f = contextvars.copy_context().run(run_variant, p, cfg0, ref, variant, case, tmpdir)
             except Skip:
                 res.skipped += 1
                 continue
@@ -529,30 +533,76 @@ def _owns(t, v):
     return False
 
 
-def _union_family(t, v):
-    """does (type, value) contain a Union node where a serialiser-total member (Enum / restricted type, whose
-    serialising branch accepts anything) comes before the member that owns the value?"""
+def _reg_text(v):
+    """what the registered serializer writes for the value"""
+    try:
+        from jsonargparse.typing import get_registered_type
+
+        return get_registered_type(type(v)).serializer(v)
+    except Exception:  # noqa: BLE001
+        return str(v)
+
+
+def _accepts_text(t, text):
+    if isinstance(text, float):      # Decimal is serialised with float
+        if t["t"] in ("opt", "union"):
+            return any(_accepts_text(x, text) for x in (t["a"] if t["t"] == "union" else [t["a"]]))
+        return t["t"] == "float"
+    if t["t"] == "str":
+        return True
+    if t["t"] in ("int", "float", "bool"):
+        return isinstance(text, str) and bool(_loader_nonstr) and _loader_nonstr[0](text)
+    if t["t"] == "opt":
+        return _accepts_text(t["a"], text)
+    if t["t"] == "union":
+        return any(_accepts_text(x, text) for x in t["a"])
+    return False
+
+
+def _flatten_union(t):
+    out = []
+    for m in t["a"]:
+        if m["t"] == "union":
+            out.extend(_flatten_union(m))
+        elif m["t"] == "opt":
+            out.extend(_flatten_union({"t": "union", "a": [m["a"]]}))
+        else:
+            out.append(m)
+    return out
+
+
+def _union_family(t, v, nested=False):
+    """does (type, value) contain a Union node where a serialiser-total member (Enum / restricted / registered type,
+    whose serialising branch accepts anything) comes before the member that owns the value?
+    `nested`: the Union sits inside another generic alias.  typing caches `List[Union[A, B]]` and
+    `List[Union[B, A]]` as ONE object (Union compares as a set), so the member order the library sees is the order
+    of whichever spelling was created first in the process: below a generic the test is order-insensitive."""
     k = t["t"]
     if k == "opt":
-        members = [t["a"]]
         if v is None:
             return False
-        return _union_family(t["a"], v)
+        return _union_family(t["a"], v, True)
     if k == "union":
-        members = t["a"]
+        members = _flatten_union(t)          # typing flattens Union[A, Union[B, C]] and drops duplicates
         owner = next((i for i, m in enumerate(members) if _owns(m, v)), len(members))
-        for i, m in enumerate(members[:owner]):
+        flat = len(members) != len(t["a"])
+        before = members[:owner] if not (nested or flat) else [m for i, m in enumerate(members) if i != owner]
+        for m in before:
             if _total(m):
                 return True
-        return owner < len(members) and _union_family(members[owner], v)
+            if m["t"] == "list" and isinstance(v, (bytes, bytearray, range)):
+                return True   # the sequence branch serialises any non-list iterable with list(): bytes -> [0, ...], range -> [0, 1, ...]
+            if owner < len(members) and members[owner]["t"] == "registered" and _accepts_text(m, _reg_text(v)):
+                return True   # the owner serialises to a text that an earlier member takes on re-parse (str; int/float/bool if it reads as a number)
+        return owner < len(members) and _union_family(members[owner], v, True)
     if k == "list" and isinstance(v, list):
-        return any(_union_family(t["a"], x) for x in v)
+        return any(_union_family(t["a"], x, True) for x in v)
     if k == "dict" and isinstance(v, dict):
-        return any(_union_family(t["v"], x) for x in v.values())
+        return any(_union_family(t["v"], x, True) for x in v.values())
     if k == "tuple" and isinstance(v, tuple):
-        return any(_union_family(tt, x) for tt, x in zip(t["a"], v))
+        return any(_union_family(tt, x, True) for tt, x in zip(t["a"], v))
     if k in ("vtuple", "set") and isinstance(v, (tuple, set)):
-        return any(_union_family(t["a"], x) for x in v)
+        return any(_union_family(t["a"], x, True) for x in v)
     if k == "dataclass":
         return any(_union_family(f["type"], _getfield(v, f["name"])) for f in t["fields"])
     return False
@@ -911,6 +961,11 @@ def gen_type(rng, prof, depth=0):
         members = [gen_type(rng, prof, depth + 1) for _ in range(rng.randint(2, 3))]
         if not prof.get("union_family", False):
             members = order_union_clean(members)
+        elif any(_has_iterable_registered(m) for m in members):
+            # the List branch takes bytes/bytearray/range as iterables in both directions (one corpus witness, not generated)
+            members = [m for m in members if not _has_list(m)] or [{"t": "int"}]
+            if len(members) < 2:
+                members = [{"t": "bool"}] + members
         return {"t": "union", "a": members}
     if r < 0.74:
         return {"t": "list", "a": gen_type(rng, prof, depth + 1)}
@@ -940,11 +995,39 @@ def _total(t):
     return False
 
 
+def _has_iterable_registered(t):
+    if t["t"] == "registered":
+        return t["name"] in ("bytes", "bytearray", "range")
+    if t["t"] == "opt":
+        return _has_iterable_registered(t["a"])
+    if t["t"] in ("union", "tuple"):
+        return any(_has_iterable_registered(x) for x in t["a"])
+    if t["t"] in ("list", "vtuple", "set"):
+        return _has_iterable_registered(t["a"])
+    if t["t"] == "dict":
+        return _has_iterable_registered(t["v"])
+    if t["t"] == "dataclass":
+        return any(_has_iterable_registered(f["type"]) for f in t["fields"])
+    return False
+
+
+def _has_list(t):
+    if t["t"] in ("list", "vtuple", "set", "tuple"):
+        return True
+    if t["t"] == "opt":
+        return _has_list(t["a"])
+    if t["t"] == "union":
+        return any(_has_list(x) for x in t["a"])
+    return False
+
+
 def order_union_clean(members):
     """keep the seed-driven domain outside the Union serialisation family: at most one member that contains a
     serialiser-total type, placed last"""
     plain = [m for m in members if not _total(m)]
     total = [m for m in members if _total(m)]
+    if total and _has_iterable_registered(total[0]):
+        plain = [m for m in plain if m["t"] != "list"]   # a List member would serialise bytes/bytearray/range with list()
     out = plain + total[:1]
     if len(out) < 2:
         filler = {"t": "bool"} if out[0]["t"] == "int" else {"t": "int"}
